@@ -249,7 +249,8 @@ def strlike_cases(draw):
     hooks = {n: {'savorize': draw(st.booleans()), 'sweeten': draw(st.booleans())} for n in names}
     return {'family': 'strlike', 'kind': kind, 'depth': d, 'mix_at': mix_at,
             'mix_first': draw(st.booleans()), 'hooks': hooks,
-            'position': draw(st.sampled_from(['doc', 'list', 'dictvalue', 'attr'])),
+            'position': draw(st.sampled_from(['doc', 'list', 'dictvalue', 'attr'] + (
+                ['dictkey', 'dictkey'] if kind != 'enum' else []))),
             'which': [draw(st.integers(0, d - 1)) for _ in range(draw(st.integers(1, 3)))],
             'order_rev': draw(st.booleans())}
 
@@ -278,12 +279,12 @@ def check_strlike(case, ctx):
             c['sweeten'] = []
         classes.append(c)
     pos = case['position']
-    which = case['which'] if pos in ('list', 'dictvalue') else case['which'][:1]
+    which = case['which'] if pos in ('list', 'dictvalue', 'dictkey') else case['which'][:1]
     t0 = ['ref', 'SL0']
     if pos == 'attr':
         classes.append({'name': 'H', 'kind': 'obj', 'bases': [], 'params': [{'name': 'x', 'type': t0}]})
     doc_type = {'doc': t0, 'list': ['list', t0], 'dictvalue': ['dict', 'str', t0],
-                'attr': ['ref', 'H']}[pos]
+                'dictkey': ['dict', t0, 'int'], 'attr': ['ref', 'H']}[pos]
     order = [c['name'] for c in classes]
     spec = {'classes': classes, 'doc_type': doc_type, 'order': order[::-1] if case['order_rev'] else order}
     m = models.build(spec)
@@ -296,6 +297,7 @@ def check_strlike(case, ctx):
     mk = (lambda k: cls['red' if k % 2 == 0 else 'green']) if kind == 'enum' else (lambda k: cls('v%d' % k))
     vals = [mk(k) for k in range(len(which))]
     value = {'doc': vals[0], 'list': vals, 'dictvalue': {'k%d' % k: v for k, v in enumerate(vals)},
+             'dictkey': {v: k for k, v in enumerate(vals)} if pos == 'dictkey' else None,
              'attr': None}[pos]
     if pos == 'attr':
         value = m.classes['H'](vals[0])
